@@ -651,6 +651,7 @@ impl AssemblyCode {
                             y_register = None;
                         }
                         AsmMnemonic::TAX => {
+                            flags = FlagsState::X;
                             x_register = accumulator.clone();
                             if let Some(v) = &accumulator {
                                 if v.ends_with(",X") {
@@ -665,6 +666,7 @@ impl AssemblyCode {
                             }
                         }
                         AsmMnemonic::TAY => {
+                            flags = FlagsState::Y;
                             y_register = accumulator.clone();
                             if let Some(v) = &accumulator {
                                 if v.ends_with(",Y") {
@@ -679,9 +681,11 @@ impl AssemblyCode {
                             }
                         }
                         AsmMnemonic::TXA => {
+                            flags = FlagsState::A;
                             accumulator = x_register.clone();
                         }
                         AsmMnemonic::TYA => {
+                            flags = FlagsState::A;
                             accumulator = y_register.clone();
                         }
                         AsmMnemonic::STA | AsmMnemonic::STX | AsmMnemonic::STY => {
@@ -705,8 +709,13 @@ impl AssemblyCode {
                         | AsmMnemonic::SBC
                         | AsmMnemonic::EOR
                         | AsmMnemonic::AND
-                        | AsmMnemonic::ORA => accumulator = None,
+                        | AsmMnemonic::ORA => {
+                            // These instructions set N and Z too
+                            flags = FlagsState::Unknown;
+                            accumulator = None;
+                        }
                         AsmMnemonic::LSR | AsmMnemonic::ASL | AsmMnemonic::ROL | AsmMnemonic::ROR => {
+                            flags = FlagsState::Unknown;
                             accumulator = None;
                             if let Some(v) = &x_register {
                                 if v.eq(&inst.dasm_operand) {
@@ -719,13 +728,21 @@ impl AssemblyCode {
                                 }
                             }
                         }
-                        AsmMnemonic::PLA | AsmMnemonic::PHA => accumulator = None,
+                        AsmMnemonic::PLA | AsmMnemonic::PHA => {
+                            flags = FlagsState::Unknown;
+                            accumulator = None;
+                        }
                         AsmMnemonic::JSR | AsmMnemonic::JMP => {
+                            flags = FlagsState::Unknown;
                             accumulator = None;
                             x_register = None;
                             y_register = None;
                         }
-                        AsmMnemonic::CPX | AsmMnemonic::CPY | AsmMnemonic::CMP => {
+                        AsmMnemonic::CPX
+                        | AsmMnemonic::CPY
+                        | AsmMnemonic::CMP
+                        | AsmMnemonic::PLP
+                        | AsmMnemonic::RTI => {
                             flags = FlagsState::Unknown;
                         }
                         _ => (),
